@@ -44,6 +44,14 @@ def repo_state():
     return head[:12] + "-" + hashlib.sha1((diff + untracked).encode()).hexdigest()[:10]
 
 
+def assert_same_tree(state0):
+    """the lead commits fixes to the repository while checks run: a run that straddles a commit compares
+    binaries of two different trees and must not report anything"""
+    now = repo_state()
+    if now != state0:
+        raise ToolError("the repository under test changed during the run (%s -> %s): run the check again" % (state0, now))
+
+
 def harness_state():
     h = hashlib.sha1()
     base = os.path.join(common.VERIF, "harness", "src")
